@@ -6,6 +6,7 @@ import numpy as np
 from .. import tlc, core
 
 ZERO_TOL = 1e-6
+SDP_TOL = 1e-4       # SDP-based measures: the library's own accuracy statement without MOSEK (tests/test_entangle/test_entangle_symext.py asserts 1e-4)
 
 
 def gv(v):
@@ -35,10 +36,10 @@ def evaluate(ctx, rho, dims, sdp, label):
         except Exception as ex:
             ev.append(dict(op='exception', crit=crit, error=type(ex).__name__ + ': ' + str(ex)[:120]))
 
-    def measure(name, f):
+    def measure(name, f, tol=ZERO_TOL):
         try:
             v = float(np.real(f()))
-            ev.append(dict(op='measure', name=name, finite=bool(np.isfinite(v)), zero=bool(np.isfinite(v) and abs(v) <= ZERO_TOL), raw=repr(v)))
+            ev.append(dict(op='measure', name=name, finite=bool(np.isfinite(v)), zero=bool(np.isfinite(v) and abs(v) <= tol), raw=repr(v)))
         except Exception as ex:
             ev.append(dict(op='exception', crit=name, error=type(ex).__name__ + ': ' + str(ex)[:120]))
     verdict('is_ppt', lambda: E.is_ppt(rho, dims))
@@ -55,6 +56,13 @@ def evaluate(ctx, rho, dims, sdp, label):
     if sdp and len(dims) == 2 and dims[0] * dims[1] <= 9:
         verdict('is_ABk_symmetric_ext(k=2)', lambda: E.is_ABk_symmetric_ext(rho, dims, kext=2))
         verdict('is_ABk_symmetric_ext(k=3,boson)', lambda: E.is_ABk_symmetric_ext(rho, dims, kext=3, use_boson=True))
+        # further routes to the same sets: the naive (unsymmetrised) extension SDP, and the SDP-based measures that vanish on the
+        # PPT / extendible sets, hence on every separable state
+        verdict('is_ABk_symmetric_ext_naive(k=2)', lambda: E.is_ABk_symmetric_ext_naive(rho, dims, 2)[0])
+        measure('get_ppt_ree', lambda: E.get_ppt_ree(rho, dims[0], dims[1], use_tqdm=False), SDP_TOL)
+        measure('get_linear_entropy_entanglement_ppt', lambda: E.get_linear_entropy_entanglement_ppt(rho, dims), SDP_TOL)
+        measure('get_ABk_symmetric_extension_ree(k=2)', lambda: E.get_ABk_symmetric_extension_ree(rho, dims, 2), SDP_TOL)
+        measure('get_ABk_symmetric_extension_ree(k=1,ppt)', lambda: E.get_ABk_symmetric_extension_ree(rho, dims, 1, use_ppt=True), SDP_TOL)
         if sdp > 1:
             verdict('is_ABk_symmetric_ext(k=3,boson,ppt)', lambda: E.is_ABk_symmetric_ext(rho, dims, kext=3, use_boson=True, use_ppt=True))
             verdict('is_ABk_symmetric_ext(k=4,boson)', lambda: E.is_ABk_symmetric_ext(rho, dims, kext=4, use_boson=True))
@@ -70,7 +78,7 @@ def run(ctx):
                 'for both polarities; the symmetric-extension SDPs on a subset; distinct by construction history')
     ctx.assumptions = ['TLC/SANY correct', 'closed-form measures are called zero when |v| <= 1e-6 and finite', 'SDP-based tests inherit the solver tolerance of the library']
     ctx.not_covered = ['Haar-random irrational product vectors (same code path)', 'Horodecki families (covered as exact objects by C18)']
-    ctx.tolerances = {'zero': ZERO_TOL}
+    ctx.tolerances = {'zero': ZERO_TOL, 'zero_sdp_measures': SDP_TOL}
     traces = []
     meta = []
     r = tlc.run('contract/Sim_Sep.tla', 'contract/Sim_Sep.cfg', simulate=dict(num=40 if quick else 400, file=True), depth=10, seed=ctx.seed + 7, workers=8, timeout=3000)
